@@ -107,6 +107,65 @@ def oracle(steps, lines, fb=False):
     return fails
 
 
+def oracle_latest(steps, lines, variant):
+    """the property's letter on histories in which a helper effect writes a dependency of the resource inside the propagation of a
+    dependency write (`clamp`: the dependency is clamped to 50; `reset`: dependencies (q, p), a write to q resets p to 0). How many
+    fetches such a write starts is the implementation's business (it depends on the order in which the two effects run); what the
+    property fixes is read off the observed list of started fetches: the LAST fetch started was started for the latest dependency
+    values, the value is its result once it has completed and the previous value until then, is_loading <=> it is outstanding"""
+    fails = []
+    q, pg, d = 0, 0, 0
+    done = set()
+    for i, st in enumerate(steps):
+        f = dict(p.split("=") for p in lines[i + 1].split())
+        prev_val = lines[i].split()[0].split("=")[1]
+        fetches = [int(x) for x in f["fetches"].split(",")]
+        prev_n = len(lines[i].split()[3].split("=")[1].split(","))
+        if st[0] == "write":
+            v = st[1]
+            if variant == "clamp":
+                d = min(v, 50)
+            elif v % 2 == 1:
+                pg = v
+            else:
+                q, pg = v, 0
+        elif st[1] < prev_n:
+            done.add(st[1])
+        cur = d if variant == "clamp" else q * 1000 + pg
+        latest = len(fetches) - 1
+        if fetches[-1] != cur:
+            fails.append({"step": i, "what": "no fetch was started for the latest dependency values", "latest dependency values": cur, "fetches started for": fetches})
+            continue
+        if (f["loading"] == "1") != (latest not in done):
+            fails.append({"step": i, "what": "is_loading is not 'the latest fetch is outstanding'", "loading": f["loading"], "fetches": fetches, "completed": sorted(done)})
+        want = str(fetches[latest]) if latest in done else prev_val
+        if f["value"] != want:
+            fails.append({"step": i, "what": "the value is not the result of the latest fetch" if latest in done else "previous value not readable while the latest fetch is outstanding / an older fetch overwrote it",
+                          "value": f["value"], "expected": want, "fetches": fetches, "completed": sorted(done)})
+    return fails
+
+
+def gen_helper(tier, rng, vals):
+    cases = []
+    for n in range(1, 4):
+        for ws in itertools.product(vals[:4], repeat=n):
+            steps = [("write", w) for w in ws]
+            for order in (range(0, 2 * n + 2), reversed(range(0, 2 * n + 2)), [2 * n, 2 * n - 1, n]):
+                cases.append(steps + [("complete", k) for k in order])
+            # completions between the writes
+            cases.append([x for k, w in enumerate(ws) for x in (("write", w), ("complete", 2 * k + 1), ("complete", 2 * k + 2), ("complete", k + 1))])
+    for _ in range(150 if tier == "quick" else 2000):
+        steps, started = [], 1
+        for _ in range(rng.randint(3, 12)):
+            if rng.random() < 0.45:
+                steps.append(("write", rng.choice(vals)))
+                started += 2
+            else:
+                steps.append(("complete", rng.randrange(started + 1)))
+        cases.append(steps)
+    return cases
+
+
 def gen_fb(tier, rng):
     """histories for the feedback variant: dependency values ending in 7 trigger a follow-up write when they are installed"""
     cases = []
@@ -238,7 +297,32 @@ def main(argv):
                 smis.append({"steps": ["self"] + c, "impl": ls[:-1], "model": smodel[i]})
     chk.obligation("correspondence and oracle on %d histories in which the fetch itself moves the dependency on in its last poll (superseded before it can deliver)" % len(fcases),
                    smodel is not None and not smis and not sfail, str((sfail + smis)[:1]))
-    mism, orfail = [], list(tfail) + sfail
+    # a helper effect writes a dependency inside the propagation of a dependency write (oracle only)
+    hfail = []
+    nh = 0
+    for variant, vals in (("clamp", [60, 7, 99, 50, 30]), ("reset", [2, 5, 4, 7, 6, 3])):
+        hcases = gen_helper(a.tier, rng, vals)
+        nh += len(hcases)
+        htext = "\n".join("(resource (%s) %s)" % (" ".join("(%s %d)" % st for st in c), variant) for c in hcases) + "\n"
+        rc, so, se = vlib.run_driver(binp, htext, timeout=3000)
+        hblocks = so.rstrip("\n").split("\n==\n")
+        if rc != 0 or len(hblocks) != len(hcases):
+            hfail.append({"steps": [variant], "failures": [{"what": "driver run (%s)" % variant, "stderr": se[-800:]}]})
+            continue
+        for c, b in zip(hcases, hblocks):
+            ls = b.split("\n")
+            chk.note_case(variant + str(c), True)
+            if ls[0] == "PANIC" or ls[-1] != "end panics=0":
+                hfail.append({"steps": [variant] + c, "failures": [{"what": "panic", "line": ls[-1]}]})
+                continue
+            f = oracle_latest(c, ls[:-1], variant)
+            if f:
+                hfail.append({"steps": [variant + (" (a helper effect created before the resource clamps the dependency to 50)" if variant == "clamp" else
+                                                   " (dependencies (q, p): even writes go to q and a helper effect on(q) then resets p to 0, odd writes go to p; fetch value q * 1000 + p)")] + c,
+                              "failures": f[:3], "output": ls[:-1]})
+    chk.obligation("oracle on %d histories in which a helper effect writes a dependency of the resource inside the propagation of a dependency write (clamp, reset)" % nh,
+                   not hfail, str(hfail[:1]))
+    mism, orfail = [], list(tfail) + sfail + hfail
     chk.obligation("oracle: disposing the scope with fetches pending never panics, neither at disposal nor when the executor drops the cancelled tasks (%d histories)" % (len(cases) + len(fcases)),
                    not endfail, str(endfail[:1]))
     for c, l in endfail[:3]:
